@@ -227,4 +227,9 @@ def finalise (c : Cfg) (s : St) : List Trap := sortByBottom (finalList c s)
 def merge (c : Cfg) (hits : List FHit) : Option (List Trap) :=
   (mergeAll c St.init hits).map (finalise c)
 
+/-- the pre-screen of `dp.AlignTraps` (`align.go`): a trapezoid that is not already marked as
+    covered is handed to `alignRecursion` iff `t.Top-t.Bottom >= a.k`, `a.k` being the word size
+    (`Align` passes `FilterParams.WordSize`) -/
+def preScreen (k : Int) (t : Trap) : Bool := decide (t.top - t.bottom ≥ k)
+
 end Biogo.PalsMerge
